@@ -209,12 +209,15 @@ TrDedupPair ==
 
 TrKeyedFile == IsEvent("ShKeyedFile") /\ R.found = R.incl_file /\ UNCHANGED sh
 
-TrExpiry ==
-  /\ IsEvent("ShExpiry")
+ExpiryOK ==
   /\ R.expiry = R.creation + R.valid
   /\ R.loaded = (R.now <= R.expiry)                      \* a shard past its expiry is not loaded
   /\ R.deleted = (R.expiry + R.grace <= R.now)           \* and deleted only after the grace period
-  /\ UNCHANGED sh
+  \* the same through a manager, whether the shard is named by file path or found in a directory
+  /\ \A i \in 1..Len(R.via) : /\ R.via[i].registered = (IF R.now <= R.expiry THEN 1 ELSE 0)
+                               /\ (R.via[i].has_chunks => R.via[i].answers = (R.now <= R.expiry))
+
+TrExpiry == IsEvent("ShExpiry") /\ ExpiryOK = TRUE /\ UNCHANGED sh
 
 TrKeyedTimes == IsEvent("ShKeyedTimes") /\ R.creation = R.creation_set /\ R.expiry = R.creation + R.valid /\ UNCHANGED sh
 
